@@ -13,10 +13,16 @@ META = {
     'explanation': 'E-TAB over all basic zones, policies and years startYear-1..untilYear: whole-year UNTIL, one rule per month '
                    'and year, no Jan-1 transition, single-character letters, and the five-slot bound n(z,y) <= kMaxCacheEntries '
                    'where the formula is derived from the call sites of addTransition reachable from init(); E-PATH over '
-                   'Transformer.transform() for the basic-only filters; zonedb vs zonedbx recorded-line equality.',
+                   'Transformer.transform() for the basic-only filters; zonedb vs zonedbx recorded-line equality; E-GNF year '
+                   'alignment of the three cache-fill helpers (era of the label year, latest rule before the instant the '
+                   'transition stands for, comparator read from findLatestPriorRule, effect of a deviation enumerated over the '
+                   'shipped tables; priorYearOfRule returns a year strictly before its argument on every path); the anchor rule '
+                   'is copied only from SAVE == 0 rules.',
     'decided': 'the stated data preconditions of BasicZoneProcessor hold for every shipped basic zone and year; the basic '
                'cache never needs more than kMaxCacheEntries slots; the compiler applies the four basic-only filters on the '
-               'basic path; names(zonedb) is a subset of names(zonedbx) with identical recorded era/rule lines and TZ version',
+               'basic path; names(zonedb) is a subset of names(zonedbx) with identical recorded era/rule lines and TZ version; '
+               'every stored basic transition pairs the era of its label year with the latest rule before the instant it stands for '
+               '(for every shipped zone and year); anchor rules carry a standard-time letter',
     'not_decided': 'that the preconditions are sufficient, i.e. the basic algorithm itself against zic; equality of the answers '
                    'of the two processors at every instant',
     'assumptions': ['clang 14 parser', 'CPython ast', 'calendar resolution of ON expressions by datetime (checker oracle)'],
